@@ -381,7 +381,7 @@ def _fold_aliases(func: ast.AST, props: Set[str]) -> int:
                     i += 1
                     continue
                 for u in uses:
-                    _replace(func, u, copy.deepcopy(value))
+                    _replace(func, u, _clone(value))
                 del block[i]
                 folded += 1
             # an emptied block cannot happen: the binding was followed by at least one use elsewhere,
@@ -626,7 +626,7 @@ def _propagate_pure_locals(func: ast.AST, props: Set[str], cls_name: Optional[st
                         continue
                     # a use inside a loop that does not contain the binding reads the same value every time: fine
                     for u in uses:
-                        _replace(func, u, copy.deepcopy(value))
+                        _replace(func, u, _clone(value))
                     del block[i]
                     if not block:
                         block.append(ast.Pass())
@@ -635,6 +635,21 @@ def _propagate_pure_locals(func: ast.AST, props: Set[str], cls_name: Optional[st
         if not changed:
             break
     return folded
+
+
+def _clone(node):
+    """Syntax-only copy (fields and positions): whatever else hangs on a node is not followed."""
+    if isinstance(node, list):
+        return [_clone(x) for x in node]
+    if not isinstance(node, ast.AST):
+        return node
+    new = node.__class__()
+    for name, val in ast.iter_fields(node):
+        setattr(new, name, _clone(val))
+    for a in ("lineno", "col_offset", "end_lineno", "end_col_offset"):
+        if hasattr(node, a):
+            setattr(new, a, getattr(node, a))
+    return new
 
 
 def _names_in(e: Optional[ast.AST]) -> Set[str]:
